@@ -26,11 +26,17 @@ def run(chk, repo, tier):
                        'arrays of sums can hold the entries of both operands (dtype not taken from one operand)')
     n5 = arith.aliasing_rules(chk, repo, 'C03.R5') + arith.sum_dtype_rule(chk, repo, 'C03.R5')
     chk.floor('C03.R5', n5, 3)
+    chk.rule('C03.R6', '(multi)linearity of the exact conversions and of the arithmetic: in as_vector, as_matrix (dense and sparse '
+                       'path), identity, the sums, products, application and merges the entries of the site tensors are moved, '
+                       'multiplied and added but never inspected - no comparison, magnitude, rounding, pruning or dtype test has a '
+                       'tensor-valued operand (value taint from `.A` / `.data` / array parameters; shapes are not values)')
+    n6 = arith.linearity_rules(chk, repo, 'C03.R6')
+    chk.floor('C03.R6', n6, 12, hard_min=8)
     chk.floor('C03.R1', n1, 7)
     chk.floor('C03.R2', n2, 14)
     chk.floor('C03.R3', n3, 20)
     chk.floor('C03.R4', n4, 5)
-    chk.undecided += ['dense equality up to rounding', 'the sparse as_matrix path (scipy.sparse reshapes are outside the leg '
-                      'domain)', 'from_vector at tol = 0 numerically', 'MPO.identity beyond its layout']
+    chk.undecided += ['dense equality up to rounding', 'the index arithmetic of the sparse as_matrix path (scipy.sparse reshapes are outside the '
+                      'leg domain)', 'from_vector at tol = 0 numerically', 'MPO.identity beyond its layout']
     return ('Leg-domain evaluation of the product and merge code, AST layout rules for np.block / np.concatenate in the sums, '
             'argument-order rules for the dense conversions.', 'instances = layout / pairing / label facts per operation')
